@@ -7,3 +7,123 @@ try:
     REPLAYERS.update(getattr(_ring, "REPLAYERS", {}))
 except ImportError:
     _ring = None
+
+import z3
+
+
+@unit(P, "L[optimal haploid/population value bounds every doubled haploid that recombines only at block boundaries]", "L", targets=[])
+def u_l_ohv(ctx):
+    """per block: the value of the chosen parental block copy is <= the maximum over the designated copies; the sum over
+    blocks and the ploidy factor preserve the inequality (monotonicity of finite sums)"""
+    ctx.trust("monotonicity of finite sums")
+    v1, v2, v3, v4, pick = z3.Reals("v1 v2 v3 v4 pick")
+    mx = lambda a, b: z3.If(a >= b, a, b)
+    best = mx(mx(v1, v2), mx(v3, v4))
+    ctx.prove("block: any available block copy value <= max over the designated copies (4 copies)", [z3.Or(pick == v1, pick == v2, pick == v3, pick == v4)],
+              pick <= best)
+    ctx.prove("block: the maximum is attained by an available copy", [], z3.Or(best == v1, best == v2, best == v3, best == v4))
+    b1, b2, m1, m2 = z3.Reals("b1 b2 m1 m2")
+    pl = z3.Int("ploidy")
+    ctx.prove("sum: blockwise <= implies ploidy-scaled sums <=", [b1 <= m1, b2 <= m2, pl >= 1],
+              z3.ToReal(pl) * (b1 + b2) <= z3.ToReal(pl) * (m1 + m2))
+    t1, t2, t3, g1, g2, g3 = z3.Reals("t1 t2 t3 g1 g2 g3")
+    ctx.prove("conservation: block values (sums over the markers of each block) add up to the total additive value when the blocks "
+              "partition the markers (3 markers, blocks {0,1},{2})", [], (g1 * t1 + g2 * t2) + (g3 * t3) == g1 * t1 + g2 * t2 + g3 * t3)
+
+
+import numpy
+from pyvc import sym, npmodel, loopcut
+from pyvc.arr import EArr
+from pyvc.sym import cur, _t, fresh_int
+
+HAP = "pybrops/core/util/haplo.py"
+
+
+@unit(P, "loop[haplobin_bounds: run-length boundaries partition the markers]", "A2", targets=[HAP + ":haplobin_bounds"])
+def u_bounds(ctx):
+    """post: with G = number of runs: hstix[0] == 0, hspix[g] == hstix[g+1], hspix[G-1] == n, hlen == hspix - hstix >= 1,
+    labels constant on every [hstix[g], hspix[g]) and different across every boundary -- for label arrays of any length >= 1"""
+    box = {}
+
+    def inv(st):
+        hb = box["hb"]
+        hs, hp, prev = st["hstix"], st["hspix"], st["prev"]
+        i = _t(st["_k"]) + 1
+        S, T = _t(hs.vlen()), _t(hp.vlen())
+        g, j = z3.Ints("q_g q_j")
+        d = {}
+        d["lengths"] = z3.And(S == T + 1, S >= 1, hs.at(0) == 0)
+        d["chained"] = z3.ForAll([g], z3.Implies(z3.And(0 <= g, g < T), hp.at(g) == hs.at(g + 1)))
+        d["starts-increasing-below-i"] = z3.And(
+            z3.ForAll([g], z3.Implies(z3.And(0 <= g, g < S), z3.And(0 <= hs.at(g), hs.at(g) < i))),
+            z3.ForAll([g], z3.Implies(z3.And(0 <= g, g < S - 1), hs.at(g) < hs.at(g + 1))))
+        d["current-run-constant"] = z3.And(_t(prev) == hb.at(i - 1),
+                                           z3.ForAll([j], z3.Implies(z3.And(hs.at(S - 1) <= j, j < i), hb.at(j) == _t(prev))))
+        d["closed-runs-constant"] = z3.ForAll([g, j], z3.Implies(z3.And(0 <= g, g < T, hs.at(g) <= j, j < hp.at(g)),
+                                                                 hb.at(j) == hb.at(hs.at(g))))
+        d["boundaries-are-label-changes"] = z3.ForAll([g], z3.Implies(z3.And(0 <= g, g < T), hb.at(hp.at(g)) != hb.at(hp.at(g) - 1)))
+        return d
+    f = loopcut.Extracted(HAP + ":haplobin_bounds", loop_specs={"0": inv})
+    ex = ctx.explorer()
+
+    def thunk():
+        e = cur()
+        n = fresh_int("n", 1)
+        hb = EArr.fresh("haplobin", (n,), numpy.int64)
+        box["hb"] = hb
+        hs, hp, hl = f(hb)
+        G = _t(hs.shape[0])
+        g1, j1 = z3.Int(e.fresh_name("g")), z3.Int(e.fresh_name("j"))
+        e.assume(z3.And(0 <= g1, g1 < G))
+        e.prove("haplobin_bounds:post:same-number-of-starts-stops-lengths", z3.And(_t(hp.shape[0]) == G, _t(hl.shape[0]) == G, G >= 1))
+        e.prove("haplobin_bounds:post:first-start-0-last-stop-n", z3.And(hs.at(0) == 0, hp.at(G - 1) == n.t))
+        e.prove("haplobin_bounds:post:chained", z3.Implies(g1 < G - 1, hp.at(g1) == hs.at(g1 + 1)))
+        e.prove("haplobin_bounds:post:lengths", z3.And(hl.at(g1) == hp.at(g1) - hs.at(g1), hl.at(g1) >= 1))
+        e.assume(z3.And(hs.at(g1) <= j1, j1 < hp.at(g1)))
+        e.prove("haplobin_bounds:post:labels-constant-within-a-block", hb.at(j1) == hb.at(hs.at(g1)))
+        e.prove("haplobin_bounds:post:labels-change-across-a-boundary", z3.Implies(g1 < G - 1, hb.at(hp.at(g1)) != hb.at(hp.at(g1) - 1)))
+        e.prove("haplobin_bounds:canary:blocks-of-length-one", hl.at(g1) == 1, expect="fail", timeout_ms=1500)
+        return "ok"
+    with npmodel.patched_numpy():
+        outs = ex.explore(thunk)
+    ctx.absorb(ex)
+    raised = [o for o in outs if isinstance(o, sym.Raised)]
+    ctx.record("haplobin_bounds:noraise", not raised, kind="noraise", detail="; ".join(repr(r) + r.tb[-900:] for r in raised[:1]))
+    ctx.record("haplobin_bounds:every-loop-cut", f.loops_cut == set(f.loops), kind="cover", detail=str(f.loops))
+    # counterexample search on the real function (natively; every label array of length <= 7 over 3 labels):
+    # a failed obligation above is then reported together with a concrete failing input when there is one
+    import itertools
+    from pybrops.core.util.haplo import haplobin_bounds
+    bad = None
+    for n in range(1, 8):
+        for lab in itertools.product(range(3), repeat=n):
+            try:
+                hs, hp, hl = (numpy.asarray(x) for x in haplobin_bounds(numpy.array(lab)))
+                exp_s = [0] + [i for i in range(1, n) if lab[i] != lab[i - 1]]
+                exp_p = exp_s[1:] + [n]
+                ok = hs.tolist() == exp_s and hp.tolist() == exp_p and hl.tolist() == [b - a for a, b in zip(exp_s, exp_p)]
+                msg = "got %s %s %s expected starts %s stops %s" % (hs.tolist(), hp.tolist(), hl.tolist(), exp_s, exp_p)
+            except Exception as ex_:  # noqa
+                ok, msg = False, repr(ex_)
+            if not ok:
+                bad = (list(lab), msg)
+                break
+        if bad:
+            break
+    if bad:
+        ctx.fail_input("haplobin_bounds:native:run-length-decomposition", dict(haplobin=bad[0]), cls="haplobin_bounds", message=bad[1])
+    ctx.record("haplobin_bounds:native-enumeration-ran", True, kind="cover", detail="3^n label arrays, n<=7")
+
+
+def _replay_bounds(inp):
+    from pybrops.core.util.haplo import haplobin_bounds
+    lab = inp["haplobin"]
+    n = len(lab)
+    hs, hp, hl = (numpy.asarray(x).tolist() for x in haplobin_bounds(numpy.array(lab)))
+    exp_s = [0] + [i for i in range(1, n) if lab[i] != lab[i - 1]]
+    exp_p = exp_s[1:] + [n]
+    ok = hs == exp_s and hp == exp_p and hl == [b - a for a, b in zip(exp_s, exp_p)]
+    return (not ok), "haplobin_bounds(%s) -> %s %s %s; run-length decomposition is %s %s" % (lab, hs, hp, hl, exp_s, exp_p)
+
+
+REPLAYERS["loop[haplobin_bounds: run-length boundaries partition the markers]"] = _replay_bounds
